@@ -526,6 +526,9 @@ def gen_C06(r):
             ops.append({"op": "clean", "cwd": ""})
         if r.random() < 0.4:
             ops.append(run_op(again_p=0.0))
+        if r.random() < 0.45:
+            # an earlier attempt that was killed somewhere in the middle (often inside the copy loop)
+            ops.append({"op": "restore", "archive": "A0", "cwd": "", "kill": int(10 ** r.uniform(2.0, 2.9))})
         ops.append({"op": "restore", "archive": "A0", "cwd": ""})
         cands += [len(ops) - 1] * 4
     elif plan == "gc":
